@@ -479,7 +479,13 @@ fn wrapped_forms(rep: &mut Report, x: &PV, y: &PV, plain: &[Option<bool>; 6]) {
     }
     // (c) multi-select values whose members are the SAME nodes under different / equal names
     for (text, want) in [("{p: l} == {q: l}", false), ("{p: l} == {p: l}", true), ("{p: l} != {q: l}", true), ("[l] == [l]", true), ("[l, l] == [l]", false), ("{p: l, q: r} == {p: l, q: r}", true),
-                         ("{p: l, q: r} == {p: r, q: l}", plain[0] == Some(true))] {
+                         ("{p: l, q: r} == {p: r, q: l}", plain[0] == Some(true)),
+                         // containers that differ (or not) in ONE position and hold the very same node in the others, before or after it
+                         ("[l, r] == [r, r]", plain[0] == Some(true)), ("[r, l] == [r, r]", plain[0] == Some(true)), ("[l, r, r] == [r, r, r]", plain[0] == Some(true)),
+                         ("[r, r, l] == [r, r, r]", plain[0] == Some(true)), ("[r, l, r] == [r, r, r]", plain[0] == Some(true)), ("[[l, r]] == [[r, r]]", plain[0] == Some(true)),
+                         ("{p: l, q: r} == {p: r, q: r}", plain[0] == Some(true)), ("{p: r, q: l} == {p: r, q: r}", plain[0] == Some(true)), ("{a: [l, r]} == {a: [r, r]}", plain[0] == Some(true)),
+                         ("[l, r] != [r, r]", plain[0] != Some(true)), ("contains([[r, r]], [l, r])", plain[0] == Some(true)), ("[@, l] == [@, r]", plain[0] == Some(true)),
+                         ("[l, @] == [r, @]", plain[0] == Some(true)), ("[l, r, @] != [r, r, @]", plain[0] != Some(true))] {
         if matches!(x, PV::Null) || matches!(y, PV::Null) {
             // (a multi-select hash keeps null members, nothing special; still fine to check)
         }
